@@ -45,9 +45,21 @@ def run(C, R):
         F.adt(STATE)
         # ---- R1: guard construction sites
         sites = [(fn, s) for fn, s, cl in scan_aggregates(F, GUARD) if not cl]
-        R.floor('C02.R1 guard-construction-sites[%s]' % cfg, len(sites), 2)
         # (a guard built inside a closure - `acquired.then(|| guard)` - is judged on the paths of the enclosing function)
-        site_fns = sorted(set(CG.root_fn(fn['path']) for fn, _ in sites))
+        site_fns = set(CG.root_fn(fn['path']) for fn, _ in sites)
+        # a private constructor (`GenericMutexGuard::new(mutex)`) only wraps its argument: whether the guard is
+        # entitled is decided by whoever calls it - judged there, with the constructor inlined
+        for _i in range(3):
+            for fp in sorted(site_fns):
+                f_ = F.fn(fp) or {}
+                cs_ = [c for c, _ in CG.callers_of(fp) if c != fp]
+                if cs_ and not f_.get('reachable') and not f_.get('impl_trait') and not any(
+                        e_ for e_ in [1] if any(b['term']['k'] == 'call' and 'fn' in b['term']['func'] and
+                                                b['term']['func']['fn']['name'] == 'lock' for b in f_.get('blocks', []))):
+                    site_fns.discard(fp)
+                    site_fns.update(cs_)
+        site_fns = sorted(site_fns)
+        R.floor('C02.R1 guard-construction-sites[%s]' % cfg, len(site_fns), 2)
         for fp in site_fns:
             fn = F.fn(fp)
             paths = E.run(fp)
